@@ -1,4 +1,5 @@
 import Apko.Model.IndexSig
+import Apko.Model.IndexSigGlue
 /-!
 line-protocol handlers for corr:indexsig (C04).
 
@@ -12,6 +13,8 @@ and `Spec.acceptableB` (the oracle, on Go's answer).
   is.check  ign nosig url arch                                        → checkOn | ¬exempt | class
   is.parse  ign nosig url arch keys first verif pRest pWhole gokind goout → impl | pass/fail | class
   is.multi  mode ign nosig arch keys goout (url first verif pRest pWhole)* → impl | pass/fail | class
+  is.glue   goClasses goAnswers nArchives (first verif pRest pWhole)*nArchives run*  → impl | pass/fail | class
+            (end-to-end layer, see the section `glue` below)
 
 Encodings: `nosig`/`keys`/entries are comma lists; names are `x<hex>`; key material, entry bodies and
 package records are opaque tokens; `first` = `none` or `<ending>|<entries>` with ending `eof`, `errnext`,
@@ -120,8 +123,209 @@ def groups : List String → List One
   | u :: f :: v :: pr :: pw :: rest => mkOne u f v pr pw :: groups rest
   | _ => []
 
+
+/-! ## glue: whole histories of build / lock / package-list operations (Model/IndexSigGlue.lean)
+
+`run` = `np;off;cache;net;apks;ops` (one tab field per run)
+  net  = `,`-list of `<F|E|N>:x<url>:<tok>:<archive id>`  (F local file with version token, E remote with ETag, N remote without)
+  apks = `|`-list of `x<arch>/<ign>/<nosig ,-list>/<keys ,-list of x<name>:<pem>>/<repos ,-list>`
+  ops  = `|`-list of `<stop>!<resn>&<resn>…`, resn = `<reader>><sib>.<sib>…` (indexes into apks)
+`goClasses` = runs `/`-separated, one letter per operation: `L` every index loaded, `E` an index was refused / unreachable
+`goAnswers` = runs `/`, operations `|`, answers `&`: `<resn>=<f|n><rec>,<rec>…` (f: full records, n: name|version only), `-` = none
+
+Impl: `Glue.runAll implKeying` over the interpretation the harness measured (archive `i` is the token `A<i>`, its
+verified remainder `R<i>`).  Oracle (history- and memo-blind): an operation that got past index loading has, for every
+index of every resolution's family, some archive that was ever offered for that URL and that `Spec.acceptableB` allows
+to be used under the owner's keys and the reader's switch (or the local file is absent now); and every answered
+package comes from such a reading of one of the reader's own repositories. -/
+namespace Glue
+open Apko.IndexSig.Glue
+
+structure ArchDesc where
+  first : String
+  verif : List (Bytes × Alg × Bytes)
+  pRest : Option Index
+  pWhole : Option Index
+
+def tokAi (i : Nat) : Bytes := 'A' :: (toString i).toList
+def tokRi (i : Nat) : Bytes := 'R' :: (toString i).toList
+
+def idOf (c : Char) (t : Bytes) : Option Nat :=
+  match t with
+  | h :: ds => if h == c && !ds.isEmpty && ds.all isDigit then some (digitsToNat ds) else none
+  | [] => none
+
+def mkCryptoAll (ds : List ArchDesc) : Crypto where
+  sha1 := fun x => '1' :: ':' :: x
+  sha256 := fun x => '2' :: '5' :: '6' :: ':' :: x
+  rsaVerify := fun pem a d s =>
+    let r := match a with
+      | .sha1 => stripPrefix ['1', ':'] d
+      | .sha256 => stripPrefix ['2', '5', '6', ':'] d
+    match r.bind (idOf 'R') with
+    | some i => match ds[i]? with
+      | some x => x.verif.contains (pem, a, s)
+      | none => false
+    | none => false
+
+def mkCodecAll (ds : List ArchDesc) : Codec where
+  readFirst := fun a => match idOf 'A' a with
+    | some i => match ds[i]? with
+      | some x => parseFirst x.first (tokRi i)
+      | none => none
+    | none => none
+  indexFromArchive := fun a => match idOf 'R' a with
+    | some i => (ds[i]?).bind (·.pRest)
+    | none => match idOf 'A' a with
+      | some i => (ds[i]?).bind (·.pWhole)
+      | none => none
+
+def archDescs : Nat → List String → List ArchDesc × List String
+  | 0, rest => ([], rest)
+  | n + 1, f :: v :: pr :: pw :: rest =>
+    let (ds, r) := archDescs n rest
+    (⟨f, parseVerif v, parseIdx pr, parseIdx pw⟩ :: ds, r)
+  | _ + 1, rest => ([], rest)
+
+structure NetEnt where
+  kind : String
+  url : Text
+  tok : Text
+  aid : Nat
+
+def parseNet (s : String) : List NetEnt :=
+  (splitList s).filterMap fun x =>
+    match x.splitOn ":" with
+    | [k, u, t, a] => some ⟨k, unx u, t.toList, a.toNat!⟩
+    | _ => none
+
+def mkNet (off cache : Bool) (es : List NetEnt) : Net where
+  offline := off
+  cacheOn := cache
+  file := fun u => match es.find? (fun e => e.kind == "F" && e.url == u) with
+    | some e => some (e.tok, tokAi e.aid)
+    | none => none
+  remote := fun u => match es.find? (fun e => e.kind != "F" && e.url == u) with
+    | some e => some (if e.kind == "E" then some e.tok else none, tokAi e.aid)
+    | none => none
+
+def parseApk (s : String) : Option Apk :=
+  match s.splitOn "/" with
+  | [a, ign, nosig, keys, repos] =>
+    some ⟨unx a, (splitList repos).map unx, parseKeys keys, ign == "1", (splitList nosig).map unx⟩
+  | _ => none
+
+def parseResn (apks : List Apk) (s : String) : Option Resn :=
+  match s.splitOn ">" with
+  | [r, ss] =>
+    match apks[r.toNat!]? with
+    | some reader => some ⟨reader, ((if ss.isEmpty then [] else ss.splitOn ".").filterMap (fun i => apks[i.toNat!]?))⟩
+    | none => none
+  | _ => none
+
+def parseOp (apks : List Apk) (s : String) : Option Op :=
+  match s.splitOn "!" with
+  | [st, rs] => some ⟨st == "1", ((if rs.isEmpty then [] else rs.splitOn "&").filterMap (parseResn apks))⟩
+  | _ => none
+
+structure PRun where
+  run : Run
+  ents : List NetEnt
+
+def parseRun (s : String) : Option PRun :=
+  match s.splitOn ";" with
+  | [np, off, cache, net, apks, ops] =>
+    let es := parseNet net
+    let as := ((if apks.isEmpty then [] else apks.splitOn "|").filterMap parseApk)
+    some ⟨⟨np == "1", mkNet (off == "1") (cache == "1") es, ((if ops.isEmpty then [] else ops.splitOn "|").filterMap (parseOp as))⟩, es⟩
+  | _ => none
+
+def showClasses (oks : List (List Bool)) : String :=
+  "/".intercalate (oks.map fun l => String.ofList (l.map fun b => if b then 'L' else 'E'))
+
+/-- the readings of archive `aid`, offered for `url`, that the Spec allows to be used under these keys and options -/
+def candReadings (ds : List ArchDesc) (keys : Keys) (o : Opts) (arch url : Text) (aid : Nat) : List Index :=
+  match ds[aid]? with
+  | none => []
+  | some d =>
+    let f := parseFirst d.first tokR
+    let x : One := ⟨url, f, mkCrypto d.verif, mkCodec f d.pRest d.pWhole⟩
+    acceptableCands keys o arch x
+
+/-- the first two `|`-separated fields of a record (name, version) -/
+def recNV (rec : Text) : Text :=
+  match splitOnChar '|' (unhex rec) with
+  | n :: v :: _ => n ++ '|' :: v
+  | l => joinWith ['|'] l
+
+/-- ids of the archives ever offered for `url` in these runs -/
+def offered (runs : List PRun) (url : Text) : List Nat :=
+  runs.flatMap fun r => (r.ents.filter (fun e => e.url == url)).map (·.aid)
+
+def familyOK (ds : List ArchDesc) (seen : List PRun) (cur : PRun) (x : Resn) : Bool :=
+  (x.reader :: x.sibs).all fun owner =>
+    owner.repos.all fun repo =>
+      let url := indexURL repo owner.arch
+      if !isRemote url && !(cur.ents.any (fun e => e.url == url)) then true
+      else (offered seen url).any fun aid => !(candReadings ds owner.keys (readOpts x.reader owner) owner.arch url aid).isEmpty
+
+def answerOK (ds : List ArchDesc) (seen : List PRun) (x : Resn) (ans : String) : Bool :=
+  let full := ans.startsWith "f"
+  let recs := (splitList (ans.drop 1).toString).map String.toList
+  let allowed := x.reader.repos.flatMap fun repo =>
+    let url := indexURL repo x.reader.arch
+    (offered seen url).flatMap fun aid =>
+      (candReadings ds x.reader.keys (readOpts x.reader x.reader) x.reader.arch url aid).flatMap (·.packages)
+  if full then recs.all (fun r => allowed.contains r)
+  else recs.all (fun r => (allowed.map recNV).contains (recNV r))
+
+def opVerdict (ds : List ArchDesc) (seen : List PRun) (cur : PRun) (op : Op) (cls : Char) (answers : String) : Option String :=
+  if cls != 'L' then none
+  else if !(op.resns.all (familyOK ds seen cur)) then
+    some "fail:loaded-an-index-that-no-offered-archive-justifies"
+  else
+    let bad := (if answers == "-" || answers.isEmpty then [] else answers.splitOn "&").any fun a =>
+      match a.splitOn "=" with
+      | [i, recs] => match op.resns[i.toNat!]? with
+        | some x => !(answerOK ds seen x recs)
+        | none => true
+      | _ => true
+    if bad then some "fail:answer-contains-a-package-of-an-index-that-must-not-be-used" else none
+
+def runVerdict (ds : List ArchDesc) (seen : List PRun) (cur : PRun) (classes : String) (answers : String) : Option String :=
+  let anss := answers.splitOn "|"
+  let rec go : List Op → List Char → List String → Option String
+    | op :: ops, c :: cs, as =>
+      match opVerdict ds seen cur op c (as.headD "-") with
+      | some v => some v
+      | none => go ops cs as.tail
+    | _, _, _ => none
+  go cur.run.ops classes.toList anss
+
+def verdict (ds : List ArchDesc) (runs : List PRun) (classes answers : List String) : String :=
+  let rec go : List PRun → List PRun → List String → List String → String
+    | seen, r :: rs, c :: cs, as =>
+      match runVerdict ds (seen ++ [r]) r c (as.headD "-") with
+      | some v => v
+      | none => go (seen ++ [r]) rs cs as.tail
+    | _, _, _, _ => "pass"
+  go [] runs classes answers
+
+def handle (goClasses goAnswers nArch : String) (rest : List String) : String :=
+  let (ds, runsS) := archDescs nArch.toNat! rest
+  let runs := runsS.filterMap parseRun
+  if runs.length != runsS.length || ds.length != nArch.toNat! then "bad-glue-request\tfail:bad-request\tunlisted" else
+  let C := mkCryptoAll ds
+  let R := mkCodecAll ds
+  let impl := showClasses (runAll implKeying C R ⟨[], [], []⟩ (runs.map (·.run))).1
+  let v := verdict ds runs (goClasses.splitOn "/") (goAnswers.splitOn "/")
+  impl ++ "\t" ++ v ++ "\t" ++ (if v == "pass" then "-" else "unlisted")
+
+end Glue
+
 def handle (args : List String) : Option String :=
   match args with
+  | "is.glue" :: goClasses :: goAnswers :: nArch :: rest => some (Glue.handle goClasses goAnswers nArch rest)
   | ["is.check", ign, nosig, url, arch] =>
     let o := parseOpts ign nosig
     let impl := toString (checkOn o (unx url) (unx arch))
